@@ -283,7 +283,7 @@ def position_programs(part, nparts):
 
 def units(tier, seed):
     us = [('chains',), ('positions', 0, 3), ('positions', 1, 3), ('positions', 2, 3)]
-    for i in range(32 if tier == 'quick' else 200):
+    for i in range(32 if tier == 'quick' else 1280):
         us.append(('random', i))
     return us
 
